@@ -136,6 +136,28 @@ theorem suspended_iff_more {α : Type} (p : SProg α) (s : PState) :
 
 example : (residual (S.topLoop 16) (PSt.fresh.resetAddNewInput "(a (".toList).pstate).isSome = true := by decide +kernel
 
+/-- **The kept coroutine is the rest of the parse.** Whenever a parse rests in a blocked
+"more input needed" yield (`suspendA … = (false, κ, v')` on the view of a state with a current
+stream and the end of the input not signalled), then (1) the program `PSt.parseTokens` keeps as the
+coroutine is `κ`, the answer is `more` and the state it leaves is `v'`; (2) `v'` has no input left;
+(3) resuming `κ` on any further input `more` is running the ORIGINAL program on the input followed
+by `more`, whatever end-of-input mark the continuation carries. For every program. (With
+`annotated_parser_is_the_parser` and `run_view`: an unfinished text continued by `NewInput` parses
+as the concatenation; what `Stop`/`Reset` unwind is that same program.) -/
+theorem suspended_program_is_rest_of_run {α : Type} (p : SProg α) (s : PState) (hi : Parser.Inv s)
+    (hfin : (view s).fin = false) (κ : SProg α) (v' : View) (h : suspendA p (view s) = some (false, κ, v')) :
+    (residual p s = some κ ∧ view (run p.erase s).2 = v' ∧ (run p.erase s).1.isMore = true) ∧
+    v'.runes = [] ∧
+    ∀ more fin', runA p.erase ⟨(view s).core, (view s).runes ++ more, (view s).exprs, fin'⟩ =
+      runA κ.erase ⟨v'.core, more, v'.exprs, fin'⟩ :=
+  ⟨residual_of_suspendA p s hi κ v' h, resume_is_rest_of_run p (view s) hfin false κ v' h⟩
+
+example : ∃ κ v', suspendA (S.topLoop 16) (view (PSt.fresh.resetAddNewInput "(a (".toList).pstate) = some (false, κ, v') := by
+  have h : ((suspendA (S.topLoop 16) (view (PSt.fresh.resetAddNewInput "(a (".toList).pstate)).map (·.1)) = some false := by
+    decide +kernel
+  obtain ⟨⟨e, κ, v'⟩, h1, h2⟩ := Option.map_eq_some_iff.mp h
+  exact ⟨κ, v', by rw [h1]; simp only at h2; rw [h2]⟩
+
 /-- **`abandoned_parse_consumes_nothing`.** After `ResetAddNewInput(piece)` the input of the
 lexer is exactly `piece`, every other lexer field is as in a new lexer, the reply accumulator is
 empty and no coroutine is left — whatever parse was suspended, wherever it was suspended: the
@@ -249,8 +271,10 @@ answers `MODELS-DISAGREE` when they differ): the parser driven call by call give
 delivery model of `Model/Parser` (pieces known in advance) gives, so `parse_chunks_eq_whole`
 transfers to the call-by-call protocol. Proved parts: `annotated_parser_is_the_parser` (both run
 the same program) and `suspended_iff_more` (a coroutine is kept exactly when the answer is `more`).
-Missing: that resuming the kept program with the next piece continues the run of the whole (the
-fuel a NEW `ParsingIter` gets after a `done` differs from what is left of the first one's). -/
+and `suspended_program_is_rest_of_run` (resuming the kept program with further input continues the
+run of the whole). Missing: the step over a `done` (the NEW `ParsingIter` of the next call gets
+new fuel in the model: needs "the fuel is enough" over the mutual recursion) and the statuses of
+the intermediate calls (`trace` is not part of the abstract views). -/
 def StepwiseIsRun : Prop :=
   ∀ (p : PSt) (cs : List (List Char)),
     let r := (p.parseBy (fuelFor cs) .resetAdd cs).1
